@@ -8,13 +8,32 @@ use crate::metrology::{SurfaceDeviation2, SurfaceDeviationSet2};
 /// if I acquire a copy of the ISO specification, I will implement that as well.
 use crate::{Curve2, CurveStation2, Point2, SurfacePoint2};
 
+/// The normal against which the side of the curve is judged. Inside an edge it is the normal of that
+/// edge. When the station sits on a vertex the closest point search reports only one of the two
+/// edges meeting there, and near a sharp corner the normal of a single edge cannot tell which side
+/// of the curve a point is on, so the vertex normal (which averages both edges) is used instead.
+fn side_normal(station: &CurveStation2) -> UnitVec2 {
+    let at_vertex = if station.fraction() <= 0.0 {
+        Some(station.at_index())
+    } else if station.fraction() >= 1.0 {
+        Some(station.at_next_index())
+    } else {
+        None
+    };
+
+    match at_vertex {
+        // The vertex normal is undefined (not finite) where the curve doubles back on itself
+        Some(v) if v.normal().iter().all(|x| x.is_finite()) => v.normal(),
+        _ => station.normal(),
+    }
+}
+
 pub fn point_curve2_deviation(station: &CurveStation2, point: &Point2) -> SurfaceDeviation2 {
-    // TODO: is there a better way to handle corners?
     let sp = station.surface_point();
     let vector = point - station.point();
     let normal = if vector.norm() < 1e-6 {
         sp.normal
-    } else if vector.dot(&sp.normal) < 0.0 {
+    } else if vector.dot(&side_normal(station)) < 0.0 {
         UnitVec2::new_normalize(-vector)
     } else {
         UnitVec2::new_normalize(vector)
